@@ -234,7 +234,11 @@ class MapProductLike(KimContract):
 def units():
     simple = ["map_constant", "map_variable", "map_product", "map_quotient", "map_power", "map_comparison",
               "map_max", "map_subscript", "map_logical_not", "map_call", "map_call_with_kwargs"]
-    return [FunctionUnit(KimContract(m)) for m in simple] + [FunctionUnit(MapSum()), FunctionUnit(MapProductLike())]
+    from . import c14, finder
+    # the property needs the table to be a fixed point of every statement (a kind refined late must reach all its
+    # readers): the table's `set` and the driver loop are under the contracts of C14
+    return [FunctionUnit(KimContract(m)) for m in simple] + [FunctionUnit(MapSum()), FunctionUnit(MapProductLike())] \
+        + c14.table_units() + finder.units()
 
 
 LEVEL = "other"
@@ -246,7 +250,8 @@ TRUSTED_BASE = [
 ]
 ASSUMPTIONS = [
     "MIXED (category other): only the clause 'every inferred expression kind is a kind, never None' is proved, per map_* method; "
-    "that every assigned variable gets a table entry is NOT proved (SymbolKindFinder.__call__ is not under contract; finding D23 shows it is false for subscript-only assignments)",
+    "that every assigned variable gets a table entry is NOT proved (finding D23 shows it is false for subscript-only assignments); "
+    "for SymbolKindFinder.__call__ what is proved is that the returned table is a common fixed point of all statement steps (see C14)",
     "value-vs-kind agreement and the declared result kinds of the built-ins are decided only by the bounded stand-in (built-ins on a value catalogue; random builder programs run on the real interpreter)",
 ]
 EXPLANATION = ("MIXED. Proved: each KindInferenceMapper.map_* (constant, variable, sum, product-like, product, quotient, power, comparison, "
